@@ -43,17 +43,24 @@ func (fp *filesystemCachePersistor) getFilename(key string) string {
 
 func (fp *filesystemCachePersistor) Store(key string, reader io.Reader) (int64, error) {
 	filename := fp.getFilename(key)
-	var written int64
-	{
-		f, err := os.OpenFile(filename, os.O_CREATE|os.O_TRUNC|os.O_WRONLY, 0o600)
-		if err != nil {
-			return 0, err
-		}
-		defer f.Close()
-		written, err = io.Copy(f, reader)
-		if err != nil {
-			return written, err
-		}
+	// Write to a temporary file and rename it into place: readers (Get runs
+	// concurrently, GenericCache calls Store without its mutex) see either the
+	// previous complete value or the new complete value, never a truncated or
+	// half-written file, and two concurrent Stores cannot interleave their bytes.
+	f, err := os.CreateTemp(fp.root, "store-*.tmp")
+	if err != nil {
+		return 0, err
+	}
+	written, err := io.Copy(f, reader)
+	if closeErr := f.Close(); err == nil {
+		err = closeErr
+	}
+	if err == nil {
+		err = os.Rename(f.Name(), filename)
+	}
+	if err != nil {
+		_ = os.Remove(f.Name())
+		return written, err
 	}
 	return written, nil
 }
